@@ -161,7 +161,7 @@ func minimise(t *testing.T, sc *Scenario, plan Plan, prop, clause string) (*Scen
 		}
 		// whole clients, then single ops
 		for ci := 0; ci < len(sc.Clients); ci++ {
-			if len(sc.Clients[ci]) == 0 {
+			if len(sc.Clients[ci]) == 0 || sc.Clients[ci][0].Keep {
 				continue
 			}
 			s2 := cloneScenario(sc)
@@ -172,6 +172,9 @@ func minimise(t *testing.T, sc *Scenario, plan Plan, prop, clause string) (*Scen
 		}
 		for ci := 0; ci < len(sc.Clients); ci++ {
 			for oi := 0; oi < len(sc.Clients[ci]); oi++ {
+				if sc.Clients[ci][oi].Keep {
+					continue
+				}
 				s2 := cloneScenario(sc)
 				s2.Clients[ci] = append(s2.Clients[ci][:oi], s2.Clients[ci][oi+1:]...)
 				if r := fails(s2, plan); r != nil {
